@@ -279,6 +279,16 @@ Check five_level_used_exact :
     live_bytes5 c (live5 s) <= top5 (p5 s) /\ top5 (p5 s) <= f_cap c.
 Print Assumptions five_level_used_exact.
 
+(* fragment_size covers every block on a free list, so the `fragment_size -= size` of a pop never underflows (no panic) *)
+Theorem five_level_frag_covers :
+  forall c ops b o, new_ok5 Fixed c = true ->
+    In (b, o) (fl5 (p5 (final5 Fixed c ops))) -> class5 c b <= frag5 (p5 (final5 Fixed c ops)).
+Proof. exact five_level_frag_covers_proof. Qed.
+Check five_level_frag_covers :
+  forall c ops b o, new_ok5 Fixed c = true ->
+    In (b, o) (fl5 (p5 (final5 Fixed c ops))) -> class5 c b <= frag5 (p5 (final5 Fixed c ops)).
+Print Assumptions five_level_frag_covers.
+
 (* the 4-byte free-list link written into a freed block is 4-aligned, inside that block and touches no other live block *)
 Theorem five_link_write_safe :
   forall c ops i j o1 r1 o2 r2, new_ok5 Fixed c = true -> i <> j ->
